@@ -238,8 +238,8 @@ func TestC35(t *testing.T) {
 			// of the session, a change in a later block is not.
 			sbh := ((stop-1)/bps)*bps + 1
 			// (rapid draws small indices and the last one more often than the middle: the order is part of the weighting)
-			join21 := rapid.SampledFrom([]string{"mid-session", "previous-session-boundary", "mid-session", "before-session-start", "before-session-start-and-leaves-mid-session", "none",
-				"mid-session", "previous-session-boundary", "before-session-start", "before-session-start-and-leaves-mid-session", "none", "mid-session", "previous-session-jail"}).Draw(rt, "selfJoins0021")
+			join21 := rapid.SampledFrom([]string{"before-session-start", "mid-session", "previous-session-boundary", "before-session-start-and-leaves-mid-session", "previous-session-boundary",
+				"before-session-start-and-leaves-mid-session", "mid-session", "none", "mid-session", "none", "mid-session", "before-session-start", "previous-session-jail", "previous-session-jail"}).Draw(rt, "selfJoins0021")
 			join01 := rapid.SampledFrom([]string{"none", "none", "new-stake", "edit-stake"}).Draw(rt, "joinerJoins0001")
 			leaves21 := join21 == "before-session-start-and-leaves-mid-session"
 			if (join21 == "mid-session" || leaves21 || join01 != "none") && stop == sbh {
